@@ -157,7 +157,7 @@ def table_md():
 
 def table():
     rows = []
-    for i in sorted(os.listdir(SEEDED)):
+    for i in sorted(d for d in os.listdir(SEEDED) if os.path.isdir(os.path.join(SEEDED, d))):
         p = os.path.join(SEEDED, i, "detection.json")
         if not os.path.exists(p):
             rows.append((i, "?", "-", "not run"))
@@ -196,7 +196,7 @@ def main():
             shutil.rmtree("/tmp/fcv-seedchk-target", ignore_errors=True)
     elif cmd == "run":
         if ids == ["ALL"]:
-            ids = sorted(os.listdir(SEEDED))
+            ids = sorted(d for d in os.listdir(SEEDED) if os.path.isdir(os.path.join(SEEDED, d)))
         wt = "worktree" in flags
         from concurrent.futures import ThreadPoolExecutor
 
